@@ -63,7 +63,7 @@ class C19(Prop):
     title = 'Hyperparameter schedulers apply multiplicative factors deterministically'
     rule = ('(a) Hypothesis draws a preconditioner configuration (six constant parameters, a subset scheduled each with its '
             'own lookup table of factors drawn from per-parameter pools, a subset of other parameters given as callables, '
-            'sometimes overlapping so that construction must be refused) and a program of 1-12 operations {scheduler.step(), '
+            'sometimes overlapping so that construction must be refused - the preconditioner must then be unchanged and a valid scheduler built on it afterwards is driven through the program) and a program of 1-12 operations {scheduler.step(), '
             'scheduler.step(k), set preconditioner steps to k via load_state_dict}; a dictionary model is compared exactly '
             'after every operation. Non-trivial: >=2 scheduler steps that used different factors for some parameter, >=1 '
             'explicit step value different from the preconditioner step count, and a proper non-empty subset scheduled. '
@@ -191,9 +191,24 @@ class C19(Prop):
         try:
             sched = LambdaParamScheduler(pre, **lambdas)
         except ValueError:
-            if must_refuse:
-                return passed(True, dict(labels, nontrivial=True))
-            return violation(f'construction refused although no scheduled parameter ({scheduled}) is a callable ({callables})', 'refused-valid')
+            if not must_refuse:
+                return violation(f'construction refused although no scheduled parameter ({scheduled}) is a callable ({callables})', 'refused-valid')
+            # the refused construction must have left the preconditioner alone: same values, and a scheduler over the
+            # remaining (non-callable) parameters is then built on the SAME preconditioner and driven through the program
+            for p in PARAMS:
+                got = getattr(pre, p)
+                if got != init[p] or type(got) is not type(init[p]):
+                    return violation(f'a refused scheduler construction changed {p} to {got!r} (was {init[p]!r})', 'refusal-side-effect')
+            scheduled = [p for p in scheduled if p not in callables]
+            lambdas = {p + '_lambda': table_fn(p) for p in scheduled}
+            for p in calls:
+                calls[p].clear()
+            try:
+                sched = LambdaParamScheduler(pre, **lambdas)
+            except ValueError:
+                return violation(f'after a refused construction a valid one over {scheduled} (callables: {callables}) was refused too', 'refused-valid')
+            must_refuse = []
+            labels['continued_after_refusal'] = True
         if must_refuse:
             return violation(f'scheduler accepted lambdas for parameters that are already callables: {must_refuse}', 'accepted-callable')
 
@@ -237,7 +252,7 @@ class C19(Prop):
             if pre.steps != model_steps:
                 return violation(f'op {idx}: scheduler changed the preconditioner step count to {pre.steps}', 'steps')
         nt = (nsteps >= 2 and any(len(s) >= 2 for s in used_factors.values()) and explicit_diff
-              and 0 < len(scheduled) < len(PARAMS))
+              and 0 < len(scheduled) < len(PARAMS)) or bool(labels.get('continued_after_refusal'))
         labels['nontrivial'] = nt
         return passed(nt, labels)
 
